@@ -235,17 +235,21 @@ theorem check_err (incoming : Bytes) (s : St) (e : Exc) (h : (check incoming s).
 /-- the possible outcomes of one resumption of `read_iter` -/
 inductive RiOut (ri : RI) (s : St) : Step → RI → St → Prop
   | done : ri.max = some ri.got → ri.started = true → RiOut ri s .done ri s
-  | expired : remaining ri.timeout ri.t0 s.now = none → RiOut ri s (.err .timeout) ri s
+  | expired : ¬ (ri.started = true ∧ ri.max = some ri.got) →
+      remaining ri.timeout ri.t0 s.now = none → RiOut ri s (.err .timeout) ri s
   | ioErr (rem : Option Nat) (rec : ReadRec) (s' : St) (e : Exc) :
+      ¬ (ri.started = true ∧ ri.max = some ri.got) →
       remaining ri.timeout ri.t0 s.now = some rem →
       IoSpec (ri.maxRead s.chunk) rem s (.error e, s') rec →
       RiOut ri s (.err e) ri s'
   | chunk (rem : Option Nat) (rec : ReadRec) (s1 : St) (b : Bytes) :
+      ¬ (ri.started = true ∧ ri.max = some ri.got) →
       remaining ri.timeout ri.t0 s.now = some rem →
       IoSpec (ri.maxRead s.chunk) rem s (.ok b, s1) rec →
       (check b (writeStream b s1)).1 = .ok () →
       RiOut ri s (.chunk b) { ri with got := ri.got + b.length, started := true } (check b (writeStream b s1)).2
   | death (rem : Option Nat) (rec : ReadRec) (s1 : St) (b : Bytes) (x : Nat) (m : Bytes) :
+      ¬ (ri.started = true ∧ ri.max = some ri.got) →
       remaining ri.timeout ri.t0 s.now = some rem →
       IoSpec (ri.maxRead s.chunk) rem s (.ok b, s1) rec →
       (check b (writeStream b s1)).1 = .error (.death x m) →
@@ -257,8 +261,10 @@ theorem riNext_out (ri : RI) (s : St) : RiOut ri s (riNext ri s).1 (riNext ri s)
   · rename_i h
     simp only [Bool.and_eq_true, beq_iff_eq] at h
     exact .done h.2 h.1
-  · cases hrem : remaining ri.timeout ri.t0 s.now with
-    | none => exact .expired hrem
+  · rename_i hnd
+    simp only [Bool.and_eq_true, beq_iff_eq] at hnd
+    cases hrem : remaining ri.timeout ri.t0 s.now with
+    | none => exact .expired hnd hrem
     | some rem =>
       simp only
       obtain ⟨rec, hio⟩ := ioRead_spec (ri.maxRead s.chunk) rem s
@@ -266,7 +272,7 @@ theorem riNext_out (ri : RI) (s : St) : RiOut ri s (riNext ri s).1 (riNext ri s)
       | mk r s1 =>
         rw [hr] at hio
         cases r with
-        | error e => exact .ioErr rem rec s1 e hrem hio
+        | error e => exact .ioErr rem rec s1 e hnd hrem hio
         | ok b =>
           simp only
           cases hc : check b (writeStream b s1) with
@@ -275,12 +281,12 @@ theorem riNext_out (ri : RI) (s : St) : RiOut ri s (riNext ri s).1 (riNext ri s)
             | ok u =>
               have : s2 = (check b (writeStream b s1)).2 := by rw [hc]
               rw [this]
-              exact .chunk rem rec s1 b hrem hio (by rw [hc])
+              exact .chunk rem rec s1 b hnd hrem hio (by rw [hc])
             | error e =>
               obtain ⟨x, m, rfl⟩ := check_err b (writeStream b s1) e (by rw [hc])
               have : s2 = (check b (writeStream b s1)).2 := by rw [hc]
               rw [this]
-              exact .death rem rec s1 b x m hrem hio (by rw [hc])
+              exact .death rem rec s1 b x m hnd hrem hio (by rw [hc])
 
 /-- frame of a data-delivering outcome -/
 theorem chunk_frame {n : Nat} {rem : Option Nat} {s s1 : St} {b : Bytes} {rec : ReadRec}
